@@ -671,7 +671,8 @@ def _c11_str_method(ex, st, recv, name, args, kwargs, node):
     * `s.split(sep)`: a function of (s, sep) with at least one part; exactly `[s]` when sep does not occur, at least two parts when it does."""
     if kwargs:
         return None
-    if name == "format" and is_const(recv) and isinstance(recv.py, str) and not all(is_const(a) for a in args):
+    if name == "format" and is_const(recv) and isinstance(recv.py, str) and ":04X}" in recv.py and not all(is_const(a) for a in args):
+        # (templates made of plain '{}' fields are the engine's own business)
         import string
 
         parts, k = [], 0
@@ -731,22 +732,41 @@ if not getattr(_models.value_method, "_c11_shim", False):
 
 
 # =====================================================================================================
-# _build_production_name, the lib-supplied case (public.postscriptNames present and non-empty)
+# _build_production_name: the naming rules, one clause per rule (the whole body is executed: no exception, no side effect)
+
+_NOPS = "(self._postscriptNames is None or len(self._postscriptNames) == 0)"
+_GN = "glyph.name"
+# "production name + last suffix": the part before the LAST dot names a glyph of the source
+_R_SUFFIX = f"('.' in {_GN} and {_GN}.rsplit('.', 1)[0] in self.srcnames)"
+# ligature components: a_b_c.sfx -> a.sfx, b.sfx, c.sfx (suffix after the FIRST dot); a_b_c -> a, b, c
+_LIGA = f"([n + '.' + {_GN}.split('.', 1)[1] for n in {_GN}.split('.', 1)[0].split('_')] if '.' in {_GN} else {_GN}.split('_'))"
+_R_LIGA = f"(len({_LIGA}) > 1 and all(n in self.srcnames for n in {_LIGA}))"
+_R_BMP = f"all(self.glyphSet[n].unicode is not None and self.glyphSet[n].unicode != 0 and self.glyphSet[n].unicode <= 0xFFFF for n in {_LIGA})"
+_R_BASE = f"{_NOPS} and glyph.unicode is None and not {_R_SUFFIX}"
 
 contract(
     f"{PP}._build_production_name",
-    name="lib",
     props=["C11"],
     params={"self": Ref("PostProcessor"), "glyph": Ref("PPGlyph")},
-    returns=Opt(STR),
-    requires=["self._postscriptNames is not None", "len(self._postscriptNames) > 0"],
+    returns=STR,
+    merge_branches=False,
     ensures={
-        # the lib-supplied PostScript name wins whenever it is given and non-empty; otherwise the glyph keeps its name
-        "lib-name-wins": "implies(glyph.name in self._postscriptNames and len(self._postscriptNames[glyph.name]) > 0, result == self._postscriptNames[glyph.name])",
-        "else-own-name": "implies(glyph.name not in self._postscriptNames or len(self._postscriptNames[glyph.name]) == 0, result == glyph.name)",
-        "a-string": "result is not None",
+        # 1. a non-empty public.postscriptNames: its (non-empty) entry wins, otherwise the glyph keeps its name
+        "lib": f"implies(not {_NOPS}, result == (self._postscriptNames[{_GN}] if {_GN} in self._postscriptNames and len(self._postscriptNames[{_GN}]) > 0 else {_GN}))",
+        # 2. a code point: uniXXXX in the BMP, uXXXXX.. beyond ("%04X": upper-case hex, at least four digits)
+        "uni": f"implies({_NOPS} and glyph.unicode is not None, result == ('u' if glyph.unicode > 0xFFFF else 'uni') + '%04X' % glyph.unicode)",
+        # 3. base.suffix with a known base: production name of the base + '.' + the last suffix
+        "suffix": f"implies({_NOPS} and glyph.unicode is None and {_R_SUFFIX}, result == self.prod[{_GN}.rsplit('.', 1)[0]] + '.' + {_GN}.rsplit('.', 1)[1])",
+        # 5. anything else keeps its name
+        "plain": f"implies({_R_BASE} and not {_R_LIGA}, result == {_GN})",
     },
-    canaries={"always-own-name": "result == glyph.name"},
+    bounded_ensures={
+        # 4. ligatures of known components: uniXXXXYYYY when every component has a BMP code point, else the components' production names
+        # joined by '_'  (run time only: equality of two `join`s of comprehension-built lists needs sequence extensionality, no solver finds it)
+        "liga-uni": f"implies({_R_BASE} and {_R_LIGA} and {_R_BMP}, result == 'uni' + ''.join(['%04X' % self.glyphSet[n].unicode for n in {_LIGA}]))",
+        "liga-names": f"implies({_R_BASE} and {_R_LIGA} and not {_R_BMP}, result == '_'.join([self.prod[n] for n in {_LIGA}]))",
+    },
+    canaries={"always-own-name": f"result == {_GN}", "never-uni": "not result.startswith('uni')"},
 )
 
 
@@ -763,7 +783,7 @@ def _bpn_lib_cases(rng, n):
     return out[:n]
 
 
-CONTRACTS[f"{PP}._build_production_name#lib"].runtime = Runtime(
+CONTRACTS[f"{PP}._build_production_name"].runtime = Runtime(
     _bpn_lib_cases, lambda d: _bpn_lib_build(d)[d["k"]], call=lambda fn, a: fn(a["self"], a["glyph"])
 )
 
